@@ -364,6 +364,19 @@ func runC05(h *Harness) {
 		h.Violation("C05.setup", "provision-failed", "%v", err)
 		return
 	}
+	// the answers signed by the sibling CA (the issuer's name, another key) come after a PAST in which this validator
+	// has dealt with that CA legitimately: a certificate the sibling itself issued, authentically answered 'good'.
+	// Whatever the validator remembers about "the CA of that name" must not carry over to the other key.
+	if resp.Signer == sSibling {
+		respS := w.NewResponder("http://ocsp-sibling.sim/", w.Sib)
+		certS := w.Sib.Issue(EEOpts{Serial: big.NewInt(0x51b), OCSP: []string{respS.URL}, CDP: []string{}})
+		if x := h.Handshake(n, "met-the-sibling-ca", w.ChainFor(certS, w.Sib)); x.Err != nil {
+			h.Probe("sibling-ca-certificate-denied")
+		}
+		h.Quiesce()
+		desc += " +sibling-ca-met-before"
+		sc["case"] = desc
+	}
 	// step 1: the responder answers with the case
 	hs1 := h.Handshake(n, "hs1", w.ChainFor(cert, w.A))
 	h.Quiesce()
